@@ -430,6 +430,8 @@ def prog_def(e, pat, body, shape, wrap):
         else:
             call += g.arg(sh())
     tail = [g.p()]
+    if wrap == 'twice':                       # using a macro must not change it
+        return toks + call + [C('/')] + call + tail
     if wrap == 'group':
         return [C('{')] + toks + call + [C('}')] + T('\\mya') + tail
     if wrap == 'inbody':
@@ -531,13 +533,26 @@ def prog_misc2(e, which):
         return T('\\def\\myxa#1{<#1>}\\def\\nm{xa}\\csname my\\nm\\endcsname{') + [P()] + T('}') + [P()]
     if which == 'expandafter-over-args':
         return T('\\def\\mya#1#2{#2#1}\\def\\myb{') + [P()] + T('}\\expandafter\\mya\\expandafter{\\myb}{') + [P()] + T('}')
+    if which == 'expandafter-reuse':          # the macro expanded out of turn is unchanged afterwards
+        return T('\\def\\mya#1{[#1]}\\def\\myb{') + [P(), P()] + T('}\\expandafter\\mya\\myb!\\myb!\\expandafter\\mya\\myb')
+    if which == 'expandafter-reuse2':
+        return T('\\newcommand{\\myb}{') + [P(), P()] + T('}\\def\\mya#1{[#1]}\\expandafter\\mya\\myb!\\myb')
+    if which == 'renew-def':                  # \renewcommand replaces a \def macro
+        return T('\\def\\mya#1{(#1)}\\renewcommand{\\mya}[2]{[#2#1]}\\mya') + [P(), P(), P()]
+    if which == 'renew-let':                  # ... and a \let alias of one, leaving the original alone
+        return T('\\def\\myb{') + [P()] + T('}\\let\\mya\\myb\\renewcommand{\\mya}{') + [P()] + T('}\\mya\\myb')
+    if which == 'renew-newcommand-noargs':
+        return T('\\newcommand{\\mya}{') + [P()] + T('}\\mya\\renewcommand{\\mya}{') + [P()] + T('}\\mya')
+    if which == 'def-after-newcommand':
+        return T('\\newcommand{\\mya}[1]{(#1)}\\def\\mya#1#2{[#2#1]}\\mya') + [P(), P(), P()]
     if which == 'call-last-token':
         return T('\\def\\mya{') + [P()] + T('}') + [P()] + T('\\mya')
     raise AssertionError(which)
 
 
 MISC2 = ['call-in-delimited-arg', 'macro-as-arg', 'optional-with-group', 'four-args-optional', 'newcommand-star', 'renew-optional', 'gdef-in-body', 'def-order',
-         'two-token-delimiter', 'brace-around-param', 'csname-call-with-arg', 'expandafter-over-args', 'call-last-token']
+         'two-token-delimiter', 'brace-around-param', 'csname-call-with-arg', 'expandafter-over-args', 'call-last-token', 'expandafter-reuse', 'expandafter-reuse2', 'renew-def', 'renew-let',
+         'renew-newcommand-noargs', 'def-after-newcommand']
 
 
 def h_misc2(e, which):
@@ -621,7 +636,7 @@ def def_combos(tier):
             for shape in ARGSHAPES:
                 if '.' in pat and shape == 'sp' and pat.startswith('.'):
                     continue
-                for wrap in ('none', 'group', 'inbody', 'inarg'):
+                for wrap in ('none', 'group', 'inbody', 'inarg', 'twice'):
                     out.append((pat, body, shape, wrap))
     for pat in MULTI_PATTERNS:
         n = pat.count('#')
